@@ -31,7 +31,8 @@ VERIF = Path(__file__).resolve().parent.parent
 REPO = Path(os.environ.get("EXO_REPO", "/repo"))
 COQ = VERIF / "coq"
 SCRATCH = VERIF / ".scratch"
-EVID = VERIF / "evidence"
+# evidence of runs against a tree other than /repo (seeded changes, mutation testing) never overwrites the real evidence
+EVID = VERIF / "evidence" if "EXO_REPO" not in os.environ else SCRATCH / "evidence_other_tree"
 REPLAYS = VERIF / "replays"
 KNOWN = VERIF / "known_findings.json"
 PY = "/venv/bin/python"
@@ -320,7 +321,7 @@ class Check:
 
     # ------------------------------------------------------------------ verdict
     def finish(self):
-        EVID.mkdir(exist_ok=True)
+        EVID.mkdir(parents=True, exist_ok=True)
         REPLAYS.mkdir(exist_ok=True)
         rc = 0
         nviol = 0
